@@ -641,7 +641,7 @@ func init() {
 	fw.Register(&fw.Prop{
 		ID:          "C13",
 		Level:       "model_checking",
-		Rule:        "(STATE) breadth-first closure of one connection's state machine over the events {SELECT 0/1/7, SELECT 2^31 / 2^32+1 / 2^63-1, SELECT -1 / -7 (the database follows the reply), SELECT abc, GET, AUTH password, AUTH wrong, disconnect+reconnect}, with and without a configured password, over a plain connection and over one that arrived through the TLS port, canonical state (database, authorized) observed inside the handler through a probe; (SCHED) two connections through the real Start/accept loop/connection goroutines, each running one of 8 scripts (SELECT/SET/GET, AUTH then SELECT, failing SELECT, failed AUTH after a good one, reconnect) x with/without password = 128 scenarios, every schedule within deviation bound 2 (thorough: three connections, and bound 3); inside every handler call the issuing client's own model (database, authorization, connection object identity, per-connection user data in the sync.Map) is compared with what the handler sees. Plus: Server.Stop as one more thread while composite commands (several handler calls each, every call a scheduling point) are in flight, and the required password removed and replaced by the application between the requests of an unauthenticated connection. Per-connection user data must survive AUTH attempts of every form (one and two arguments, right and wrong).",
+		Rule:        "(STATE) breadth-first closure of one connection's state machine over the events {SELECT 0/1/7, SELECT 2^31 / 2^32+1 / 2^63-1, SELECT -1 / -7 (the database follows the reply), SELECT abc, GET, AUTH password, AUTH wrong, disconnect+reconnect}, with and without a configured password, over a plain connection and over one that arrived through the TLS port, canonical state (database, authorized) observed inside the handler through a probe; (SCHED) two connections through the real Start/accept loop/connection goroutines, each running one of 8 scripts (SELECT/SET/GET, AUTH then SELECT, failing SELECT, failed AUTH after a good one, reconnect) x with/without password = 128 scenarios, every schedule within deviation bound 2 (thorough: three connections, and bound 3); inside every handler call the issuing client's own model (database, authorization, connection object identity, per-connection user data in the sync.Map) is compared with what the handler sees. Plus: Server.Stop as one more thread while composite commands (several handler calls each, every call a scheduling point) are in flight, and the required password removed and replaced by the application between the requests of an unauthenticated connection. Per-connection user data must survive AUTH attempts of every form (one and two arguments, right and wrong). The multi-connection programs of the C08 runtime part are judged here too: a connection's authorization changes through its own AUTH only, whatever other connections and the application do to the required password.",
 		Assumptions: []string{"sequentially consistent interleavings; deviation (delay) bounded", "client counts above 3 are not explored"},
 		Run:         c13Run,
 		Replay:      c13Replay,
